@@ -61,7 +61,7 @@ func perturb(g *gen.Gen, t *gen.Node) (out []*gen.Node, labels []string) {
 	// one domain changed
 	if c, all := t.Clone(); true {
 		for _, n := range all {
-			if n.Kind == "domain" || n.Kind == "handleddomain" || n.Kind == "handleddommsg" {
+			if n.Kind == "domain" || n.Kind == "domainraw" || n.Kind == "handleddomain" || n.Kind == "handleddommsg" {
 				n.S[0] += "x"
 				add(c, "perturb-domain")
 				break
